@@ -190,6 +190,31 @@ def method_aliasing():
     c1.transpose("5")
     if [str(tn.get_Note(i, 0)) for i in range(3)] != before: bad.append("StringTuning.get_Note(open string) hands out the tuning's own note")
     if [str(n) for n in c2] != [str(n) for n in tn.frets_to_NoteContainer([0, 0, 2])]: bad.append("frets_to_NoteContainer: two results share notes")
+    # the list of excluded strings handed to a fingering search: unchanged whether the search succeeds or gives up with an error
+    gt = _tun.get_tuning("guitar", "standard")
+    for notes_, ex in ((["E-3", "A-3"], [0]), (["E-3", "A-3", "D-4"], []), (["E-3", "A-3", "H-3"], [0]), (["E-3", "A-3", None], [5]),
+                       (["E-3", "A-3", "D-4", "Q-1"], [])):
+        keep = list(ex)
+        try:
+            gt.find_fingering(notes_, 4, ex)
+        except Exception:
+            pass
+        if ex != keep: bad.append("StringTuning.find_fingering(%r, 4, not_strings=%r) left the caller's list as %r" % (notes_, keep, ex))
+    # a container placed on an entry that holds nothing yet (an empty container) in two bars: the bars, and the caller's
+    # container, stay independent, as they do when the entry already holds notes
+    for first in ([], ["A"]):
+        ba, bb_ = Bar(), Bar(); ba.place_notes(list(first), 4); bb_.place_notes(list(first), 4)
+        chord = NoteContainer(["C", "E", "G"])
+        ba.place_notes_at(chord, 0.0); bb_.place_notes_at(chord, 0.0)
+        keep_b = [(n.name, n.octave) for n in bb_[0][2]]
+        ba.transpose("3"); ba[0][2].add_note("B", 6)
+        if [(n.name, n.octave) for n in chord] != [("C", 4), ("E", 4), ("G", 4)]:
+            bad.append("Bar.place_notes_at(container) on an entry holding %r: changing the bar changed the caller's container" % first)
+        if [(n.name, n.octave) for n in bb_[0][2]] != keep_b:
+            bad.append("Bar.place_notes_at(container) on an entry holding %r in two bars: changing one bar changed the other" % first)
+        chord.add_note("D", 7)
+        if [(n.name, n.octave) for n in bb_[0][2]] != keep_b:
+            bad.append("Bar.place_notes_at(container) on an entry holding %r: a later change of the caller's container reached the bar" % first)
     # the channel list handed to play_Composition (too short, exactly right) and the meter handed to a bar as a LIST
     for chans in ([9], [3, 4], [1, 2, 3]):
         seq = sequencer.Sequencer(); comp = Composition()
